@@ -901,9 +901,7 @@ theorem escalateFrom_pres (hP : NotifyStable P o) (ts : List Typ) (w : World) (n
   | cons t ts ih => exact ih _ (markForced_pres P o hP w n t h)
 
 theorem cleanupFailures_sets (w : World) : (cleanupFailures w).sets = w.sets := by
-  unfold cleanupFailures; simp only; split
-  · rfl
-  · split <;> rfl
+  unfold cleanupFailures; split <;> rfl
 
 theorem recordFailure_sets (w : World) (a : Nat) : (recordFailure w a).1.sets = w.sets := by
   unfold recordFailure; simp only; split <;> exact cleanupFailures_sets w
@@ -1102,9 +1100,7 @@ theorem markAvail_nodes (w : World) (n : Nat) (t : Typ) (o : Oracle) :
     (markAvail w n t o).1.nodes = upd w.nodes n ((w.nodes n).avail t) := rfl
 
 theorem cleanupFailures_nodes (w : World) : (cleanupFailures w).nodes = w.nodes := by
-  unfold cleanupFailures; simp only; split
-  · rfl
-  · split <;> rfl
+  unfold cleanupFailures; split <;> rfl
 
 theorem recordFailure_nodes (w : World) (a : Nat) : (recordFailure w a).1.nodes = w.nodes := by
   unfold recordFailure; simp only; split <;> exact cleanupFailures_nodes w
@@ -1687,6 +1683,1575 @@ theorem edgesAt_point (n i m : Nat) (t : Typ) (v : Bool) (nodes : Nat → Node) 
       · rfl
       · simp [transOf, Ne.symm hm]
     rw [this]; rfl
+
+
+theorem edgesAt_point' (n i m c : Nat) (v : Bool) (nodes : Nat → Node) (nd' : Node) (outs : List Out)
+    (hv : nd'.alive c = v) (hother : ∀ j, j ≠ c → nd'.alive j = (nodes m).alive j)
+    (ht : transOf n i outs = if m = n ∧ c = i ∧ (nodes m).alive c ≠ v then [v] else []) :
+    EdgesAt n i nodes (upd nodes m nd') outs := by
+  unfold EdgesAt
+  rw [ht]
+  by_cases hm : m = n
+  · subst hm
+    simp only [upd_same, true_and]
+    by_cases hi : c = i
+    · subst hi
+      rw [hv]
+      by_cases hc : (nodes m).alive c = v
+      · simp [hc, replay]
+      · simp only [hc, ne_eq, not_false_eq_true, and_self, if_true, replay]
+        rw [if_neg (fun h => hc h.symm)]
+    · simp only [hi, false_and, if_false, replay]
+      rw [hother i (Ne.symm hi)]
+  · simp only [hm, false_and, if_false, replay]
+    rw [upd_other _ _ _ _ (Ne.symm hm)]
+
+theorem transOf_single (n i m : Nat) (t : Typ) (a : Bool) :
+    transOf n i [Out.trans m t a] = if m = n ∧ t.idx = i then [a] else [] := by
+  by_cases h : m = n ∧ t.idx = i <;> simp [transOf, h]
+
+theorem markForced_edges (n i : Nat) (w : World) (m : Nat) (t : Typ) (o : Oracle) :
+    EdgesAt n i w.nodes (markForced w m t o).1.nodes (markForced w m t o).2 := by
+  rw [markForced_nodes]
+  apply edgesAt_point' n i m t.idx false w.nodes _ _ (forced_alive_self _ t) (fun j hj => forced_alive_other _ t j hj)
+  simp only [markForced, transOf_append, transOf_noTrans _ _ _ (notifyAll_noTrans _ _ _ _ _), List.append_nil]
+  cases h : (w.nodes m).alive t.idx
+  · simp [transOf]
+  · simp only [if_true, transOf_single]
+    by_cases h1 : m = n <;> by_cases h2 : t.idx = i <;> simp [h1, h2]
+
+theorem escalateFrom_edges (n i : Nat) (ts : List Typ) (m : Nat) (o : Oracle) : ∀ w : World,
+    EdgesAt n i w.nodes (escalateFrom ts w m o).1.nodes (escalateFrom ts w m o).2 := by
+  induction ts with
+  | nil => intro w; exact edgesAt_silent n i _ _ _ rfl rfl
+  | cons t ts ih =>
+    intro w
+    simp only [escalateFrom]
+    exact edgesAt_trans n i _ _ _ _ _ (markForced_edges n i w m t o) (ih _)
+
+theorem markAvail_edges (n i : Nat) (w : World) (m : Nat) (t : Typ) (o : Oracle) :
+    EdgesAt n i w.nodes (markAvail w m t o).1.nodes (markAvail w m t o).2 := by
+  rw [markAvail_nodes]
+  apply edgesAt_point' n i m t.idx true w.nodes _ _ (avail_alive_self _ t) (fun j hj => avail_alive_other _ t j hj)
+  simp only [markAvail, transOf_append, transOf_noTrans _ _ _ (notifyAll_noTrans _ _ _ _ _), List.append_nil]
+  cases h : (w.nodes m).alive t.idx
+  · simp only [Bool.false_eq_true, if_false, transOf_single]
+    by_cases h1 : m = n <;> by_cases h2 : t.idx = i <;> simp [h1, h2]
+  · simp [transOf]
+
+theorem markAliveFallback_edges (n i : Nat) (w : World) (m : Nat) (t : Typ) (o : Oracle) :
+    EdgesAt n i w.nodes (markAliveFallback w m t o).1.nodes (markAliveFallback w m t o).2 := by
+  rw [markAliveFallback_nodes]
+  apply edgesAt_point' n i m t.idx true w.nodes _ _ (avail_alive_self _ t) (fun j hj => avail_alive_other _ t j hj)
+  simp only [markAliveFallback, transOf_append, transOf_noTrans _ _ _ (notifyAll_noTrans _ _ _ _ _), List.nil_append]
+  cases h : (w.nodes m).alive t.idx
+  · simp only [Bool.false_eq_true, if_false, transOf_single]
+    by_cases h1 : m = n <;> by_cases h2 : t.idx = i <;> simp [h1, h2]
+  · simp [transOf]
+
+theorem typOfIdx_idx (idx : Nat) (h : idx < 8) : (typOfIdx idx).idx = canon idx := by
+  have : idx = 0 ∨ idx = 1 ∨ idx = 2 ∨ idx = 3 ∨ idx = 4 ∨ idx = 5 ∨ idx = 6 ∨ idx = 7 := by omega
+  rcases this with h | h | h | h | h | h | h | h <;> subst h <;> rfl
+
+theorem restoreIdx_edges (n i : Nat) (w : World) (m : Nat) (s : Snapshot) (o : Oracle) (idx : Nat) (hidx : idx < 8) :
+    EdgesAt n i w.nodes (restoreIdx w m s o idx).1.nodes (restoreIdx w m s o idx).2 := by
+  rw [restoreIdx_nodes]
+  apply edgesAt_point' n i m (canon idx) (s.alive idx) w.nodes _ _ (restoreIdx_alive_self _ s idx)
+    (fun j hj => restoreIdx_alive_other _ s idx j hj)
+  simp only [restoreIdx, transOf_append, transOf_noTrans _ _ _ (notifyAll_noTrans _ _ _ _ _), List.nil_append]
+  by_cases hc : (w.nodes m).alive (canon idx) = s.alive idx
+  · simp [hc, transOf]
+  · have : ((w.nodes m).alive (canon idx) != s.alive idx) = true := by simpa using hc
+    simp only [this, if_true, transOf_single, typOfIdx_idx idx hidx]
+    by_cases h1 : m = n <;> by_cases h2 : canon idx = i <;> simp [h1, h2] <;> (subst h1; subst h2; exact hc)
+
+theorem restoreFrom_edges (n i : Nat) (is : List Nat) (his : ∀ j ∈ is, j < 8) (m : Nat) (s : Snapshot) (o : Oracle) :
+    ∀ w : World, EdgesAt n i w.nodes (restoreFrom is w m s o).1.nodes (restoreFrom is w m s o).2 := by
+  induction is with
+  | nil => intro w; exact edgesAt_silent n i _ _ _ rfl rfl
+  | cons j js ih =>
+    intro w
+    simp only [restoreFrom]
+    exact edgesAt_trans n i _ _ _ _ _ (restoreIdx_edges n i w m s o j (his j List.mem_cons_self))
+      (ih (fun k hk => his k (List.mem_cons_of_mem _ hk)) _)
+
+theorem floorOne_edges (n i : Nat) (w : World) (g : Nat) (fb : Nat → Option Nat) (o : Oracle) (t : Typ) :
+    EdgesAt n i w.nodes (floorOne w g fb o t).1.nodes (floorOne w g fb o t).2 := by
+  unfold floorOne
+  split
+  · exact edgesAt_silent n i _ _ _ rfl rfl
+  · split
+    · exact edgesAt_silent n i _ _ _ rfl rfl
+    · split
+      · exact edgesAt_silent n i _ _ _ rfl rfl
+      · exact markAliveFallback_edges n i w _ t o
+
+theorem floorFrom_edges (n i : Nat) (ts : List Typ) (g : Nat) (fb : Nat → Option Nat) (o : Oracle) :
+    ∀ w : World, EdgesAt n i w.nodes (floorFrom ts w g fb o).1.nodes (floorFrom ts w g fb o).2 := by
+  induction ts with
+  | nil => intro w; exact edgesAt_silent n i _ _ _ rfl rfl
+  | cons t ts ih =>
+    intro w
+    simp only [floorFrom]
+    exact edgesAt_trans n i _ _ _ _ _ (floorOne_edges n i w g fb o t) (ih _)
+
+theorem trafficOk_edges (n i : Nat) (w : World) (m : Nat) (t : Typ) (o : Oracle) :
+    EdgesAt n i w.nodes (trafficOk w m t o).1.nodes (trafficOk w m t o).2 := by
+  have h0 : EdgesAt n i w.nodes (w.setNode m ((w.nodes m).clearTraffic t)).nodes [] := by
+    apply edgesAt_silent n i _ _ _ rfl
+    by_cases hm : n = m
+    · subst hm; simp
+    · simp [upd_other _ _ _ _ hm]
+  unfold trafficOk; simp only; split
+  · have := edgesAt_trans n i _ _ _ _ _ h0 (markAvail_edges n i (w.setNode m ((w.nodes m).clearTraffic t)) m t o)
+    simpa using this
+  · exact h0
+
+
+theorem counted_alive_le (nd : Node) (t : Typ) (tr : Bool) (h : (nd.counted t tr).alive t.idx = true) :
+    nd.alive t.idx = true := by
+  cases tr <;> simp [Node.counted] at h <;> exact h.2
+
+theorem markUnavail_edges (n i : Nat) (w : World) (m : Nat) (t : Typ) (tr : Bool) (o : Oracle) :
+    EdgesAt n i w.nodes (markUnavail w m t tr o).1.nodes (markUnavail w m t tr o).2 := by
+  unfold markUnavail
+  split
+  · exact edgesAt_silent n i _ _ _ rfl rfl
+  · simp only
+    have E1 : EdgesAt n i w.nodes (w.setNode m ((w.nodes m).counted t tr)).nodes
+        (if ((w.nodes m).alive t.idx && !((w.nodes m).counted t tr).alive t.idx) = true then [Out.trans m t false] else []) := by
+      rw [setNode_nodes]
+      apply edgesAt_point' n i m t.idx (((w.nodes m).counted t tr).alive t.idx) w.nodes _ _ rfl
+        (fun j hj => counted_alive_other _ t tr j hj)
+      cases h1 : (w.nodes m).alive t.idx <;> cases h2 : ((w.nodes m).counted t tr).alive t.idx
+      · simp [transOf]
+      · have := counted_alive_le _ t tr h2; rw [h1] at this; exact absurd this (by simp)
+      · simp only [Bool.not_false, Bool.and_self, if_true, transOf_single]
+        by_cases a1 : m = n <;> by_cases a2 : t.idx = i <;> simp [a1, a2]
+      · simp [transOf]
+    rw [List.append_assoc]
+    apply edgesAt_trans n i _ _ _ _ _ E1
+    have E3 : ∀ (w2 : World), EdgesAt n i w2.nodes w2.nodes
+        (notifyAll w2.sets m t.idx ((w.nodes m).counted t tr |>.alive t.idx) o).2 :=
+      fun w2 => edgesAt_silent n i _ _ _ (transOf_noTrans _ _ _ (notifyAll_noTrans _ _ _ _ _)) rfl
+    split
+    · split
+      · apply edgesAt_trans n i _ _ _ _ _ _ (E3 _)
+        have he := escalateFrom_edges n i escalationTyps m o
+          (recordFailure (w.setNode m ((w.nodes m).counted t tr)) (w.nodes m).addr).1
+        rw [recordFailure_nodes] at he
+        have h0 : EdgesAt n i (w.setNode m ((w.nodes m).counted t tr)).nodes
+            (w.setNode m ((w.nodes m).counted t tr)).nodes [Out.escalate m] :=
+          edgesAt_silent n i _ _ _ rfl rfl
+        have := edgesAt_trans n i _ _ _ _ _ h0 he
+        simpa [escalate] using this
+      · apply edgesAt_trans n i _ _ _ _ _ _ (E3 _)
+        apply edgesAt_silent n i _ _ _ rfl
+        rw [recordFailure_nodes]
+    · exact edgesAt_trans n i _ _ _ _ _ (edgesAt_silent n i _ _ _ rfl rfl) (E3 _)
+
+theorem step_edges (n i : Nat) (w : World) (e : Event) (hne : ∀ a, e ≠ .node n a) :
+    EdgesAt n i w.nodes (step w e).1.nodes (step w e).2 := by
+  cases e with
+  | node m a =>
+    simp only [step]; split
+    · exact edgesAt_silent n i _ _ _ rfl rfl
+    · apply edgesAt_silent n i _ _ _ rfl
+      have : n ≠ m := fun h => hne a (by rw [h])
+      simp [upd_other _ _ _ _ this]
+  | group g ob p tol ms o =>
+    simp only [step]; split
+    · exact edgesAt_silent n i _ _ _ rfl rfl
+    · apply edgesAt_silent n i _ _ _ _ rfl
+      apply transOf_noTrans
+      intro x hx
+      simp only [newGroup, List.mem_append, List.mem_map] at hx
+      rcases hx with hx | ⟨t, _, rfl⟩
+      · split at hx
+        · intro a b c hc; subst hc
+          -- outputs of newSets are group callbacks
+          have : ∀ ts, ∀ x ∈ (newSets w g ob p tol ms o ts).2, ∀ n t a, x ≠ Out.trans n t a := by
+            intro ts
+            induction ts with
+            | nil => intro x hx; simp [newSets] at hx
+            | cons t ts ih =>
+              intro x hx
+              simp only [newSets, List.mem_append] at hx
+              rcases hx with hx | hx
+              · simp only [newSet, List.mem_map] at hx
+                obtain ⟨b, _, rfl⟩ := hx
+                intro _ _ _ h; cases h
+              · exact ih x hx
+          exact this _ _ hx a b c rfl
+        · simp at hx
+      · intro _ _ _ h; cases h
+  | close g => exact edgesAt_silent n i _ _ _ rfl rfl
+  | probe m t a1 a2 o =>
+    simp only [step]; split
+    · exact markAvail_edges n i _ m t o
+    · exact markUnavail_edges n i w m t false o
+    · exact edgesAt_silent n i _ _ _ rfl rfl
+  | txn m t ign o =>
+    simp only [step]; split
+    · exact edgesAt_silent n i _ _ _ rfl rfl
+    · exact markUnavail_edges n i w m t false o
+  | tfail m t ign o =>
+    simp only [step]; split
+    · exact edgesAt_silent n i _ _ _ rfl rfl
+    · exact markUnavail_edges n i w m t true o
+  | forced m t o => exact markForced_edges n i w m t o
+  | tok m t o => exact trafficOk_edges n i w m t o
+  | sbegin => exact edgesAt_silent n i _ _ _ rfl rfl
+  | send =>
+    simp only [step]; split
+    · exact edgesAt_silent n i _ _ _ rfl rfl
+    · split <;> exact edgesAt_silent n i _ _ _ rfl rfl
+  | tick d => exact edgesAt_silent n i _ _ _ rfl rfl
+  | resetGlobal => exact edgesAt_silent n i _ _ _ rfl rfl
+  | inherit m k o => exact restoreFrom_edges n i _ (by intro j hj; simp at hj; omega) m _ o w
+  | restore m s o => exact restoreFrom_edges n i _ (by intro j hj; simp at hj; omega) m s o w
+  | floor g fb o => exact floorFrom_edges n i _ g fb o w
+
+theorem run_edges (n i : Nat) (es : List Event) : ∀ w : World, (∀ e ∈ es, ∀ a, e ≠ .node n a) →
+    EdgesAt n i w.nodes (run w es).1.nodes (run w es).2 := by
+  induction es with
+  | nil => intro w _; exact edgesAt_silent n i _ _ _ rfl rfl
+  | cons e es ih =>
+    intro w h
+    simp only [run]
+    exact edgesAt_trans n i _ _ _ _ _ (step_edges n i w e (h e List.mem_cons_self))
+      (ih _ (fun e' he' => h e' (List.mem_cons_of_mem _ he')))
+
+
+/-! ## failure streaks over histories -/
+
+inductive Touch
+  | fail      -- a counted failure of this source on this node and network type
+  | none      -- neither a success nor a counted failure for this counter
+  | restart   -- a success: the streak starts over
+deriving DecidableEq, Repr
+
+/-- How event `e`, executed in state `w`, relates to the streak of the probe counter
+(`traffic = false`: probes and transactional reports) or the traffic counter (`traffic = true`) of
+node `n` at collection index `i`.  Defined from the event and the suppression state only. -/
+def touch (traffic : Bool) (n i : Nat) (w : World) : Event → Touch
+  | .probe m t a1 a2 _ =>
+    if m = n ∧ t.idx = i then
+      match probeOutcome a1 a2 with
+      | .success _ => .restart
+      | .failure => if w.suppressed || traffic then .none else .fail
+      | .nothing => .none
+    else .none
+  | .txn m t ign _ =>
+    if m = n ∧ t.idx = i ∧ ign = false ∧ w.suppressed = false ∧ traffic = false then .fail else .none
+  | .tfail m t ign _ =>
+    if m = n ∧ t.idx = i ∧ ign = false ∧ w.suppressed = false ∧ traffic = true then .fail else .none
+  | .tok m t _ =>
+    if m = n ∧ t.idx = i ∧ (traffic = true ∨ (t.isData = true ∧ (w.nodes n).alive i = false)) then .restart
+    else .none
+  | _ => .none
+
+def Touch.next (acc : Nat) : Touch → Nat
+  | .fail => acc + 1
+  | .none => acc
+  | .restart => 0
+
+/-- number of counted failures since the last success (or since `acc` failures ago), along a history -/
+def specCount (traffic : Bool) (n i : Nat) : World → List Event → Nat → Nat
+  | _, [], acc => acc
+  | w, e :: es, acc => specCount traffic n i (step w e).1 es ((touch traffic n i w e).next acc)
+
+def cnt (traffic : Bool) (nd : Node) (i : Nat) : Nat := if traffic then nd.tfail i else nd.fail i
+
+/-- restore events carry sanitised snapshots (what `ReloadHealthSnapshot` produces) -/
+def Event.Sane : Event → Prop
+  | .restore _ s _ => ∀ i, s.fail i = 0 ∧ s.tfail i = 0
+  | _ => True
+
+def CountInv (tr : Bool) (n i : Nat) (w : World) (acc : Nat) : Prop :=
+  (w.nodes n).alive i = true → cnt tr (w.nodes n) i ≤ acc
+
+/-- relation between a node's slot before and after: unchanged, dead, or counters zeroed -/
+def SlotU (nd nd' : Node) (i : Nat) : Prop := nd'.alive i = nd.alive i ∧ nd'.fail i = nd.fail i ∧ nd'.tfail i = nd.tfail i
+def SlotD (nd' : Node) (i : Nat) : Prop := nd'.alive i = false
+def SlotZ (nd' : Node) (i : Nat) : Prop := nd'.fail i = 0 ∧ nd'.tfail i = 0
+
+theorem countInv_U (tr : Bool) (n i : Nat) (w w' : World) (acc : Nat) (h : CountInv tr n i w acc)
+    (hu : SlotU (w.nodes n) (w'.nodes n) i) : CountInv tr n i w' acc := by
+  unfold CountInv cnt at *; obtain ⟨a, b, c⟩ := hu; rw [a, b, c]; exact h
+theorem countInv_D (tr : Bool) (n i : Nat) (w' : World) (acc : Nat) (hd : SlotD (w'.nodes n) i) : CountInv tr n i w' acc := by
+  unfold CountInv SlotD at *; intro h; rw [hd] at h; exact absurd h (by simp)
+theorem countInv_Z (tr : Bool) (n i : Nat) (w' : World) (acc : Nat) (hz : SlotZ (w'.nodes n) i) : CountInv tr n i w' acc := by
+  unfold CountInv cnt SlotZ at *; intro _; cases tr <;> simp [hz.1, hz.2]
+
+theorem slotU_refl (nd : Node) (i : Nat) : SlotU nd nd i := ⟨rfl, rfl, rfl⟩
+theorem slotU_trans {a b c : Node} {i : Nat} (h1 : SlotU a b i) (h2 : SlotU b c i) : SlotU a c i :=
+  ⟨h2.1.trans h1.1, h2.2.1.trans h1.2.1, h2.2.2.trans h1.2.2⟩
+
+theorem forced_slot (nd : Node) (t : Typ) (i : Nat) : SlotU nd (nd.forced t) i ∨ SlotD (nd.forced t) i := by
+  by_cases h : i = t.idx
+  · right; rw [h]; exact forced_alive_self nd t
+  · left; simp [SlotU, Node.forced, upd, h]
+
+theorem foldl_forced_slot (ts : List Typ) (i : Nat) : ∀ nd : Node,
+    SlotU nd (ts.foldl Node.forced nd) i ∨ SlotD (ts.foldl Node.forced nd) i := by
+  induction ts with
+  | nil => intro nd; left; exact slotU_refl nd i
+  | cons t ts ih =>
+    intro nd
+    simp only [List.foldl_cons]
+    rcases forced_slot nd t i with h1 | h1
+    · rcases ih (nd.forced t) with h2 | h2
+      · left; exact slotU_trans h1 h2
+      · right; exact h2
+    · right; exact foldl_forced_alive_false ts i _ h1
+
+theorem upd_nodes_other (nodes : Nat → Node) (m n : Nat) (nd' : Node) (i : Nat) (h : n ≠ m) :
+    SlotU (nodes n) ((upd nodes m nd') n) i := by rw [upd_other _ _ _ _ h]; exact slotU_refl _ i
+
+
+theorem markAvail_slot (w : World) (m : Nat) (t : Typ) (o : Oracle) (n i : Nat) :
+    (m = n ∧ t.idx = i ∧ ((markAvail w m t o).1.nodes n).alive i = true ∧ SlotZ ((markAvail w m t o).1.nodes n) i) ∨
+    (¬(m = n ∧ t.idx = i) ∧ SlotU (w.nodes n) ((markAvail w m t o).1.nodes n) i) := by
+  rw [markAvail_nodes]
+  by_cases hm : m = n
+  · subst hm
+    by_cases hi : t.idx = i
+    · subst hi; left; simp [SlotZ, Node.avail]
+    · right; refine ⟨by simp [hi], ?_⟩
+      simp [SlotU, Node.avail, upd, Ne.symm hi]
+  · right; exact ⟨by simp [hm], upd_nodes_other _ _ _ _ _ (Ne.symm hm)⟩
+
+theorem markForced_slot (w : World) (m : Nat) (t : Typ) (o : Oracle) (n i : Nat) :
+    SlotU (w.nodes n) ((markForced w m t o).1.nodes n) i ∨ SlotD ((markForced w m t o).1.nodes n) i := by
+  rw [markForced_nodes]
+  by_cases hm : m = n
+  · subst hm; simp only [upd_same]; exact forced_slot _ t i
+  · left; exact upd_nodes_other _ _ _ _ _ (Ne.symm hm)
+
+/-- the slot after one counted failure (before any escalation) -/
+theorem counted_slot (nd : Node) (t : Typ) (tr : Bool) (i : Nat) (hi : i ≠ t.idx) : SlotU nd (nd.counted t tr) i := by
+  cases tr <;> simp [SlotU, Node.counted, upd, hi]
+
+theorem markUnavail_slot (w : World) (m : Nat) (t : Typ) (tr : Bool) (o : Oracle) (n i : Nat) :
+    SlotD ((markUnavail w m t tr o).1.nodes n) i ∨
+    (w.suppressed = true ∧ (markUnavail w m t tr o).1.nodes n = w.nodes n) ∨
+    (w.suppressed = false ∧ ¬(m = n ∧ t.idx = i) ∧ SlotU (w.nodes n) ((markUnavail w m t tr o).1.nodes n) i) ∨
+    (w.suppressed = false ∧ m = n ∧ t.idx = i ∧
+      SlotU ((w.nodes n).counted t tr) ((markUnavail w m t tr o).1.nodes n) i) := by
+  rw [markUnavail_nodes]
+  by_cases hs0 : w.suppressed = true
+  · right; left; rw [if_pos hs0]; exact ⟨hs0, rfl⟩
+  · have hs : w.suppressed = false := by simpa using hs0
+    rw [if_neg hs0]
+    by_cases hm : m = n
+    · subst hm
+      by_cases he : escalates w m t tr = true
+      · rw [if_pos he, upd_same]
+        rcases foldl_forced_slot escalationTyps i ((w.nodes m).counted t tr) with h | h
+        · by_cases hi : t.idx = i
+          · right; right; right; exact ⟨hs, rfl, hi, h⟩
+          · right; right; left
+            exact ⟨hs, fun hh => hi hh.2, slotU_trans (counted_slot _ t tr i (Ne.symm hi)) h⟩
+        · left; exact h
+      · rw [if_neg he, upd_same]
+        by_cases hi : t.idx = i
+        · right; right; right; exact ⟨hs, rfl, hi, slotU_refl _ i⟩
+        · right; right; left; exact ⟨hs, fun hh => hi hh.2, counted_slot _ t tr i (Ne.symm hi)⟩
+    · right; right; left
+      refine ⟨hs, fun hh => hm hh.1, ?_⟩
+      split <;> exact upd_nodes_other _ _ _ _ _ (Ne.symm hm)
+
+theorem trafficOk_slot (w : World) (m : Nat) (t : Typ) (o : Oracle) (n i : Nat) :
+    (¬(m = n ∧ t.idx = i) ∧ SlotU (w.nodes n) ((trafficOk w m t o).1.nodes n) i) ∨
+    (m = n ∧ t.idx = i ∧ ((trafficOk w m t o).1.nodes n).tfail i = 0 ∧
+      ((t.isData = true ∧ (w.nodes n).alive i = false ∧ ((trafficOk w m t o).1.nodes n).fail i = 0) ∨
+       (¬(t.isData = true ∧ (w.nodes n).alive i = false) ∧ ((trafficOk w m t o).1.nodes n).fail i = (w.nodes n).fail i ∧
+          ((trafficOk w m t o).1.nodes n).alive i = (w.nodes n).alive i))) := by
+  rw [trafficOk_nodes]
+  by_cases hm : m = n
+  · subst hm
+    by_cases hi : t.idx = i
+    · subst hi
+      right
+      refine ⟨rfl, rfl, ?_⟩
+      cases hd : t.isData <;> cases ha : (w.nodes m).alive t.idx <;>
+        simp [Node.avail, Node.clearTraffic, ha]
+    · left
+      refine ⟨by simp [hi], ?_⟩
+      split <;> simp [SlotU, Node.avail, Node.clearTraffic, upd, Ne.symm hi]
+  · left
+    refine ⟨by simp [hm], ?_⟩
+    split <;> exact upd_nodes_other _ _ _ _ _ (Ne.symm hm)
+
+theorem foldl_restore_slot (s : Snapshot) (hs : ∀ i, s.fail i = 0 ∧ s.tfail i = 0) (i : Nat) :
+    ∀ (is : List Nat) (nd : Node),
+    (i ∈ is → SlotZ (is.foldl (fun nd j => nd.restoreIdx s j) nd) i) ∧
+    (SlotZ nd i → SlotZ (is.foldl (fun nd j => nd.restoreIdx s j) nd) i) ∧
+    (i ∉ is → (∀ j ∈ is, canon j ≠ i) → SlotU nd (is.foldl (fun nd j => nd.restoreIdx s j) nd) i) := by
+  intro is
+  induction is with
+  | nil => intro nd; exact ⟨by simp, fun h => h, fun _ _ => slotU_refl nd i⟩
+  | cons j js ih =>
+    intro nd
+    simp only [List.foldl_cons]
+    obtain ⟨i1, i2, i3⟩ := ih (nd.restoreIdx s j)
+    have hz : SlotZ nd i → SlotZ (nd.restoreIdx s j) i := by
+      intro h
+      by_cases hij : i = j
+      · subst hij; simp [SlotZ, Node.restoreIdx, hs]
+      · simp [SlotZ, Node.restoreIdx, upd, hij, h.1, h.2]
+    refine ⟨?_, fun h => i2 (hz h), ?_⟩
+    · intro hmem
+      by_cases hij : i = j
+      · subst hij; apply i2; simp [SlotZ, Node.restoreIdx, hs]
+      · exact i1 (by simpa [hij] using hmem)
+    · intro hn hc
+      have hij : i ≠ j := fun h => hn (by simp [h])
+      have h1 : SlotU nd (nd.restoreIdx s j) i := by
+        have := hc j (by simp)
+        simp [SlotU, Node.restoreIdx, upd, hij, Ne.symm this]
+      exact slotU_trans h1 (i3 (fun h => hn (List.mem_cons_of_mem _ h)) (fun k hk => hc k (List.mem_cons_of_mem _ hk)))
+
+theorem restore_slot (w : World) (m : Nat) (s : Snapshot) (o : Oracle) (hs : ∀ i, s.fail i = 0 ∧ s.tfail i = 0)
+    (n i : Nat) :
+    SlotU (w.nodes n) ((restore w m s o).1.nodes n) i ∨ SlotZ ((restore w m s o).1.nodes n) i := by
+  unfold restore
+  rw [restoreFrom_nodes]
+  by_cases hm : m = n
+  · subst hm
+    simp only [upd_same]
+    obtain ⟨h1, _, h3⟩ := foldl_restore_slot s hs i [0, 1, 2, 3, 4, 5, 6, 7] (w.nodes m)
+    by_cases hi : i < 8
+    · right; apply h1; simp; omega
+    · left; apply h3
+      · simp; omega
+      · intro j hj; simp at hj; unfold canon; split <;> omega
+  · left; exact upd_nodes_other _ _ _ _ _ (Ne.symm hm)
+
+theorem markAliveFallback_slot (w : World) (m : Nat) (t : Typ) (o : Oracle) (n i : Nat) :
+    SlotU (w.nodes n) ((markAliveFallback w m t o).1.nodes n) i ∨ SlotZ ((markAliveFallback w m t o).1.nodes n) i := by
+  rw [markAliveFallback_nodes]
+  by_cases hm : m = n
+  · subst hm
+    by_cases hi : t.idx = i
+    · subst hi; right; simp [SlotZ, Node.avail]
+    · left; simp [SlotU, Node.avail, upd, Ne.symm hi]
+  · left; exact upd_nodes_other _ _ _ _ _ (Ne.symm hm)
+
+/-- zeroed-or-unchanged composes -/
+theorem slotUZ_trans {a b c : Node} {i : Nat} (h1 : SlotU a b i ∨ SlotZ b i) (h2 : SlotU b c i ∨ SlotZ c i) :
+    SlotU a c i ∨ SlotZ c i := by
+  rcases h2 with h2 | h2
+  · rcases h1 with h1 | h1
+    · left; exact slotU_trans h1 h2
+    · right; exact ⟨h2.2.1.trans h1.1, h2.2.2.trans h1.2⟩
+  · right; exact h2
+
+theorem floorOne_slot (w : World) (g : Nat) (fb : Nat → Option Nat) (o : Oracle) (t : Typ) (n i : Nat) :
+    SlotU (w.nodes n) ((floorOne w g fb o t).1.nodes n) i ∨ SlotZ ((floorOne w g fb o t).1.nodes n) i := by
+  unfold floorOne
+  split
+  · left; exact slotU_refl _ i
+  · split
+    · left; exact slotU_refl _ i
+    · split
+      · left; exact slotU_refl _ i
+      · exact markAliveFallback_slot w _ t o n i
+
+theorem floorFrom_slot (ts : List Typ) (g : Nat) (fb : Nat → Option Nat) (o : Oracle) (n i : Nat) : ∀ w : World,
+    SlotU (w.nodes n) ((floorFrom ts w g fb o).1.nodes n) i ∨ SlotZ ((floorFrom ts w g fb o).1.nodes n) i := by
+  induction ts with
+  | nil => intro w; left; exact slotU_refl _ i
+  | cons t ts ih =>
+    intro w
+    simp only [floorFrom]
+    exact slotUZ_trans (floorOne_slot w g fb o t n i) (ih _)
+
+
+theorem countInv_counted (tr tr' : Bool) (n i : Nat) (w w' : World) (t : Typ) (acc : Nat) (hi : t.idx = i)
+    (h : CountInv tr n i w acc) (hu : SlotU ((w.nodes n).counted t tr') (w'.nodes n) i) :
+    CountInv tr n i w' (if tr = tr' then acc + 1 else acc) := by
+  unfold CountInv cnt at *
+  obtain ⟨a, b, c⟩ := hu
+  rw [a, b, c]
+  subst hi
+  intro hal
+  have h0 := h (counted_alive_le _ t tr' hal)
+  cases tr <;> cases tr' <;> simp [Node.counted] at h0 ⊢ <;> omega
+
+theorem countInv_step (tr : Bool) (n i : Nat) (w : World) (e : Event) (acc : Nat) (hs : e.Sane)
+    (h : CountInv tr n i w acc) : CountInv tr n i (step w e).1 ((touch tr n i w e).next acc) := by
+  cases e with
+  | node m a =>
+    simp only [step, touch, Touch.next]
+    split
+    · exact h
+    · by_cases hm : m = n
+      · subst hm; apply countInv_Z; simp [SlotZ, Node.fresh]
+      · exact countInv_U tr n i w _ acc h (upd_nodes_other _ _ _ _ _ (Ne.symm hm))
+  | group g ob p tol ms o =>
+    simp only [step, touch, Touch.next]
+    split
+    · exact h
+    · exact countInv_U tr n i w _ acc h (slotU_refl _ i)
+  | close g => exact countInv_U tr n i w _ acc h (slotU_refl _ i)
+  | probe m t a1 a2 o =>
+    simp only [step, touch]
+    cases hp : probeOutcome a1 a2 with
+    | success l =>
+      simp only
+      rcases markAvail_slot { w with now := w.now + l } m t o n i with ⟨h1, h2, _, h4⟩ | ⟨h1, h2⟩
+      · subst h1; subst h2
+        simp only [and_self, if_true, Touch.next]; exact countInv_Z tr _ _ _ 0 h4
+      · simp only [h1, if_false, Touch.next]; exact countInv_U tr n i w _ acc h h2
+    | nothing =>
+      simp only
+      have : (if m = n ∧ t.idx = i then Touch.none else Touch.none) = Touch.none := by split <;> rfl
+      rw [this]; exact h
+    | failure =>
+      simp only
+      rcases markUnavail_slot w m t false o n i with h1 | ⟨h1, h2⟩ | ⟨h1, h2, h3⟩ | ⟨h1, h2, h3, h4⟩
+      · exact countInv_D tr n i _ _ h1
+      · have : (if m = n ∧ t.idx = i then (if (w.suppressed || tr) = true then Touch.none else Touch.fail) else Touch.none)
+            = Touch.none := by simp [h1]
+        rw [this]; unfold CountInv; rw [h2]; exact h
+      · simp only [h2, if_false, Touch.next]; exact countInv_U tr n i w _ acc h h3
+      · subst h2; subst h3
+        simp only [and_self, if_true, h1, Bool.false_or]
+        have := countInv_counted tr false _ _ w _ t acc rfl h h4
+        cases tr <;> simpa [Touch.next] using this
+  | txn m t ign o =>
+    simp only [step, touch]
+    cases ign with
+    | true => simp [Touch.next]; exact h
+    | false =>
+      simp only [Bool.false_eq_true, if_false, true_and]
+      rcases markUnavail_slot w m t false o n i with h1 | ⟨h1, h2⟩ | ⟨h1, h2, h3⟩ | ⟨h1, h2, h3, h4⟩
+      · exact countInv_D tr n i _ _ h1
+      · simp only [h1, Bool.true_eq_false, false_and, and_false, if_false, Touch.next]
+        unfold CountInv; rw [h2]; exact h
+      · have : (if m = n ∧ t.idx = i ∧ w.suppressed = false ∧ tr = false then Touch.fail else Touch.none) = Touch.none := by
+          rw [if_neg]; intro hh; exact h2 ⟨hh.1, hh.2.1⟩
+        rw [this]; exact countInv_U tr n i w _ acc h h3
+      · subst h2; subst h3
+        simp only [h1, true_and]
+        have := countInv_counted tr false _ _ w _ t acc rfl h h4
+        cases tr <;> simpa [Touch.next] using this
+  | tfail m t ign o =>
+    simp only [step, touch]
+    cases ign with
+    | true => simp [Touch.next]; exact h
+    | false =>
+      simp only [Bool.false_eq_true, if_false, true_and]
+      rcases markUnavail_slot w m t true o n i with h1 | ⟨h1, h2⟩ | ⟨h1, h2, h3⟩ | ⟨h1, h2, h3, h4⟩
+      · exact countInv_D tr n i _ _ h1
+      · simp only [h1, Bool.true_eq_false, false_and, and_false, if_false, Touch.next]
+        unfold CountInv; rw [h2]; exact h
+      · have : (if m = n ∧ t.idx = i ∧ w.suppressed = false ∧ tr = true then Touch.fail else Touch.none) = Touch.none := by
+          rw [if_neg]; intro hh; exact h2 ⟨hh.1, hh.2.1⟩
+        rw [this]; exact countInv_U tr n i w _ acc h h3
+      · subst h2; subst h3
+        simp only [h1, true_and]
+        have := countInv_counted tr true _ _ w _ t acc rfl h h4
+        cases tr <;> simpa [Touch.next] using this
+  | forced m t o =>
+    simp only [step, touch, Touch.next]
+    rcases markForced_slot w m t o n i with h1 | h1
+    · exact countInv_U tr n i w _ acc h h1
+    · exact countInv_D tr n i _ _ h1
+  | tok m t o =>
+    simp only [step, touch]
+    rcases trafficOk_slot w m t o n i with ⟨h1, h2⟩ | ⟨h1, h2, h3, h4⟩
+    · have : (if m = n ∧ t.idx = i ∧ (tr = true ∨ t.isData = true ∧ (w.nodes n).alive i = false) then Touch.restart
+          else Touch.none) = Touch.none := by
+        rw [if_neg]; intro hh; exact h1 ⟨hh.1, hh.2.1⟩
+      rw [this]; exact countInv_U tr n i w _ acc h h2
+    · subst h1; subst h2
+      simp only [true_and]
+      rcases h4 with ⟨d1, d2, d3⟩ | ⟨d1, d2, d3⟩
+      · simp only [d1, d2, and_self, or_true, if_true, Touch.next]
+        exact countInv_Z tr _ _ _ 0 ⟨d3, h3⟩
+      · cases tr with
+        | true =>
+          simp only [true_or, if_true, Touch.next]
+          unfold CountInv cnt; intro _; simp [h3]
+        | false =>
+          have : (if (false = true ∨ t.isData = true ∧ (w.nodes m).alive t.idx = false) then Touch.restart else Touch.none)
+              = Touch.none := by
+            rw [if_neg]; rintro (hh | hh)
+            · exact absurd hh (by simp)
+            · exact d1 hh
+          rw [this]
+          unfold CountInv cnt at *
+          simp only [Bool.false_eq_true, if_false, Touch.next] at h ⊢
+          rw [d3, d2]; exact h
+  | sbegin => exact countInv_U tr n i w _ acc h (slotU_refl _ i)
+  | send =>
+    simp only [step, touch, Touch.next]
+    split
+    · exact h
+    · split <;> exact countInv_U tr n i w _ acc h (slotU_refl _ i)
+  | tick d => exact countInv_U tr n i w _ acc h (slotU_refl _ i)
+  | resetGlobal => exact countInv_U tr n i w _ acc h (slotU_refl _ i)
+  | inherit m k o =>
+    simp only [step, touch, Touch.next]
+    rcases restore_slot w m (reloadSnapshot (w.nodes k)) o (fun _ => ⟨rfl, rfl⟩) n i with h1 | h1
+    · exact countInv_U tr n i w _ acc h h1
+    · exact countInv_Z tr n i _ _ h1
+  | restore m s o =>
+    simp only [step, touch, Touch.next]
+    rcases restore_slot w m s o hs n i with h1 | h1
+    · exact countInv_U tr n i w _ acc h h1
+    · exact countInv_Z tr n i _ _ h1
+  | floor g fb o =>
+    simp only [step, touch, Touch.next]
+    rcases floorFrom_slot standardTyps g fb o n i w with h1 | h1
+    · exact countInv_U tr n i w _ acc h h1
+    · exact countInv_Z tr n i _ _ h1
+
+/-- along any sane history the real counter of an alive slot is bounded by the streak -/
+theorem countInv_run (tr : Bool) (n i : Nat) (es : List Event) : ∀ (w : World) (acc : Nat),
+    (∀ e ∈ es, e.Sane) → CountInv tr n i w acc →
+    CountInv tr n i (run w es).1 (specCount tr n i w es acc) := by
+  induction es with
+  | nil => intro w acc _ h; exact h
+  | cons e es ih =>
+    intro w acc hs h
+    simp only [run, specCount]
+    exact ih _ _ (fun e' he' => hs e' (List.mem_cons_of_mem _ he'))
+      (countInv_step tr n i w e acc (hs e List.mem_cons_self) h)
+
+
+theorem specCount_append (tr : Bool) (n i : Nat) (es : List Event) (e : Event) : ∀ (w : World) (acc : Nat),
+    specCount tr n i w (es ++ [e]) acc =
+      (touch tr n i (run w es).1 e).next (specCount tr n i w es acc) := by
+  induction es with
+  | nil => intro w acc; simp [specCount, run]
+  | cons x xs ih => intro w acc; simp only [List.cons_append, specCount, run]; exact ih _ _
+
+theorem isUdp_of_idx (t t' : Typ) (h : t.idx = t'.idx) : t.isUdp = t'.isUdp := by
+  cases t <;> cases t' <;> simp [Typ.idx] at h <;> rfl
+
+/-- the events that may take a slot down without a threshold being reached -/
+inductive ForcedCause (w : World) (n i : Nat) : Event → Prop
+  | forced (t : Typ) (o : Oracle) : t.idx = i → ForcedCause w n i (.forced n t o)
+  | restore (s : Snapshot) (o : Oracle) : ForcedCause w n i (.restore n s o)
+  | inherit (m : Nat) (o : Oracle) : ForcedCause w n i (.inherit n m o)
+  | escalation (e : Event) : Out.escalate n ∈ (step w e).2 → ForcedCause w n i e
+
+theorem escalates_out (w : World) (m : Nat) (t : Typ) (tr : Bool) (o : Oracle) (hs : w.suppressed = false)
+    (he : escalates w m t tr = true) : Out.escalate m ∈ (markUnavail w m t tr o).2 := by
+  unfold escalates at he
+  simp only [Bool.and_eq_true, decide_eq_true_eq] at he
+  unfold markUnavail
+  simp only [hs, Bool.false_eq_true, if_false]
+  have hc : ((w.nodes m).alive t.idx && !((w.nodes m).counted t tr).alive t.idx) = true ∧ (w.nodes m).addr ≠ 0 :=
+    ⟨by simpa using he.1.1, he.1.2⟩
+  rw [if_pos hc, if_pos he.2]
+  simp
+
+/-- what a counted failure does to the slot it is about -/
+theorem markUnavail_death (w : World) (m : Nat) (t : Typ) (tr : Bool) (o : Oracle) (n i : Nat)
+    (ha : (w.nodes n).alive i = true) (hd : ((markUnavail w m t tr o).1.nodes n).alive i = false) :
+    Out.escalate n ∈ (markUnavail w m t tr o).2 ∨
+    (w.suppressed = false ∧ m = n ∧ t.idx = i ∧ threshold t.isUdp tr ≤ cnt tr (w.nodes n) i + 1) := by
+  rw [markUnavail_nodes] at hd
+  by_cases hs0 : w.suppressed = true
+  · rw [if_pos hs0] at hd; rw [ha] at hd; exact absurd hd (by simp)
+  · have hs : w.suppressed = false := by simpa using hs0
+    rw [if_neg hs0] at hd
+    by_cases he : escalates w m t tr = true
+    · by_cases hm : m = n
+      · subst hm; left; exact escalates_out w m t tr o hs he
+      · rw [if_pos he, upd_other _ _ _ _ (Ne.symm hm), ha] at hd; exact absurd hd (by simp)
+    · rw [if_neg he] at hd
+      by_cases hm : m = n
+      · subst hm
+        rw [upd_same] at hd
+        by_cases hi : t.idx = i
+        · subst hi
+          right
+          refine ⟨hs, rfl, rfl, ?_⟩
+          cases tr <;> simp [Node.counted, ha, cnt] at hd ⊢ <;> omega
+        · rw [counted_alive_other _ t tr i (Ne.symm hi), ha] at hd; exact absurd hd (by simp)
+      · rw [upd_other _ _ _ _ (Ne.symm hm), ha] at hd; exact absurd hd (by simp)
+
+theorem avail_alive_mono (nd : Node) (t : Typ) (i : Nat) (h : nd.alive i = true) : (nd.avail t).alive i = true := by
+  by_cases hi : i = t.idx
+  · rw [hi]; exact avail_alive_self nd t
+  · rw [avail_alive_other nd t i hi]; exact h
+
+theorem markAvail_alive_mono (w : World) (m : Nat) (t : Typ) (o : Oracle) (n i : Nat)
+    (h : (w.nodes n).alive i = true) : ((markAvail w m t o).1.nodes n).alive i = true := by
+  rw [markAvail_nodes]
+  by_cases hm : m = n
+  · subst hm; rw [upd_same]; exact avail_alive_mono _ t i h
+  · rw [upd_other _ _ _ _ (Ne.symm hm)]; exact h
+
+theorem markAliveFallback_alive_mono (w : World) (m : Nat) (t : Typ) (o : Oracle) (n i : Nat)
+    (h : (w.nodes n).alive i = true) : ((markAliveFallback w m t o).1.nodes n).alive i = true := by
+  rw [markAliveFallback_nodes]
+  by_cases hm : m = n
+  · subst hm; rw [upd_same]; exact avail_alive_mono _ t i h
+  · rw [upd_other _ _ _ _ (Ne.symm hm)]; exact h
+
+theorem floorFrom_alive_mono (ts : List Typ) (g : Nat) (fb : Nat → Option Nat) (o : Oracle) (n i : Nat) :
+    ∀ w : World, (w.nodes n).alive i = true → ((floorFrom ts w g fb o).1.nodes n).alive i = true := by
+  induction ts with
+  | nil => intro w h; exact h
+  | cons t ts ih =>
+    intro w h
+    simp only [floorFrom]
+    apply ih
+    unfold floorOne
+    split
+    · exact h
+    · split
+      · exact h
+      · split
+        · exact h
+        · exact markAliveFallback_alive_mono w _ t o n i h
+
+theorem trafficOk_alive_mono (w : World) (m : Nat) (t : Typ) (o : Oracle) (n i : Nat)
+    (h : (w.nodes n).alive i = true) : ((trafficOk w m t o).1.nodes n).alive i = true := by
+  rw [trafficOk_nodes]
+  by_cases hm : m = n
+  · subst hm
+    split
+    · rw [upd_same]; exact avail_alive_mono _ t i (by simpa using h)
+    · rw [upd_same]; simpa using h
+  · split <;> (rw [upd_other _ _ _ _ (Ne.symm hm)]; exact h)
+
+/-- **Step form.** A slot that is alive before an event and not alive after it: the event is a forced
+report on it, a restore of the node, an escalation of the node in this very step, or a counted
+(non-ignorable, non-suppressed) failure on exactly this slot that brought its counter to the threshold. -/
+theorem death_step (w : World) (e : Event) (n i : Nat) (ha : (w.nodes n).alive i = true)
+    (hd : ((step w e).1.nodes n).alive i = false) :
+    ForcedCause w n i e ∨
+    (∃ t : Typ, t.idx = i ∧ touch false n i w e = .fail ∧ threshold t.isUdp false ≤ cnt false (w.nodes n) i + 1) ∨
+    (∃ t : Typ, t.idx = i ∧ touch true n i w e = .fail ∧ threshold t.isUdp true ≤ cnt true (w.nodes n) i + 1) := by
+  have contra : ∀ {P : Prop}, ((step w e).1.nodes n).alive i = true → P := by
+    intro P h; rw [h] at hd; exact absurd hd (by simp)
+  cases e with
+  | node m a =>
+    apply contra
+    simp only [step]; split
+    · exact ha
+    · by_cases hm : m = n
+      · subst hm; simp [Node.fresh]
+      · simp [upd_other _ _ _ _ (Ne.symm hm), ha]
+  | group g ob p tol ms o =>
+    apply contra; simp only [step]; split <;> exact ha
+  | close g => exact contra ha
+  | probe m t a1 a2 o =>
+    simp only [step] at hd
+    cases hp : probeOutcome a1 a2 with
+    | success l =>
+      rw [hp] at hd; simp only at hd
+      rw [markAvail_alive_mono { w with now := w.now + l } m t o n i ha] at hd; exact absurd hd (by simp)
+    | nothing => rw [hp] at hd; simp only at hd; rw [ha] at hd; exact absurd hd (by simp)
+    | failure =>
+      rw [hp] at hd; simp only at hd
+      rcases markUnavail_death w m t false o n i ha hd with h1 | ⟨h1, h2, h3, h4⟩
+      · left; apply ForcedCause.escalation; simp only [step, hp]; exact h1
+      · right; left
+        refine ⟨t, h3, ?_, h4⟩
+        simp [touch, h2, h3, hp, h1]
+  | txn m t ign o =>
+    simp only [step] at hd
+    cases ign with
+    | true => simp only [if_true] at hd; rw [ha] at hd; exact absurd hd (by simp)
+    | false =>
+      simp only [Bool.false_eq_true, if_false] at hd
+      rcases markUnavail_death w m t false o n i ha hd with h1 | ⟨h1, h2, h3, h4⟩
+      · left; apply ForcedCause.escalation; simp only [step, Bool.false_eq_true, if_false]; exact h1
+      · right; left
+        refine ⟨t, h3, ?_, h4⟩
+        simp [touch, h2, h3, h1]
+  | tfail m t ign o =>
+    simp only [step] at hd
+    cases ign with
+    | true => simp only [if_true] at hd; rw [ha] at hd; exact absurd hd (by simp)
+    | false =>
+      simp only [Bool.false_eq_true, if_false] at hd
+      rcases markUnavail_death w m t true o n i ha hd with h1 | ⟨h1, h2, h3, h4⟩
+      · left; apply ForcedCause.escalation; simp only [step, Bool.false_eq_true, if_false]; exact h1
+      · right; right
+        refine ⟨t, h3, ?_, h4⟩
+        simp [touch, h2, h3, h1]
+  | forced m t o =>
+    simp only [step, markForced_nodes] at hd
+    by_cases hm : m = n
+    · subst hm
+      by_cases hi : t.idx = i
+      · left; exact ForcedCause.forced t o hi
+      · rw [upd_same, forced_alive_other _ t i (Ne.symm hi), ha] at hd; exact absurd hd (by simp)
+    · rw [upd_other _ _ _ _ (Ne.symm hm), ha] at hd; exact absurd hd (by simp)
+  | tok m t o => exact contra (trafficOk_alive_mono w m t o n i ha)
+  | sbegin => exact contra ha
+  | send =>
+    apply contra; simp only [step]; split
+    · exact ha
+    · split <;> exact ha
+  | tick d => exact contra ha
+  | resetGlobal => exact contra ha
+  | inherit m k o =>
+    by_cases hm : m = n
+    · subst hm; left; exact ForcedCause.inherit k o
+    · apply contra
+      simp only [step, restore, restoreFrom_nodes, upd_other _ _ _ _ (Ne.symm hm)]; exact ha
+  | restore m s o =>
+    by_cases hm : m = n
+    · subst hm; left; exact ForcedCause.restore s o
+    · apply contra
+      simp only [step, restore, restoreFrom_nodes, upd_other _ _ _ _ (Ne.symm hm)]; exact ha
+  | floor g fb o => exact contra (floorFrom_alive_mono _ g fb o n i w ha)
+
+
+/-! ## reload: hand-over and selection floor -/
+
+theorem inherit_nodes (w : World) (n m : Nat) (o : Oracle) (i : Nat) (hi : i < 8) :
+    (((step w (.inherit n m o)).1.nodes n).alive (canon i) = (w.nodes m).alive (canon i)) ∧
+    ((step w (.inherit n m o)).1.nodes n).fail i = 0 ∧ ((step w (.inherit n m o)).1.nodes n).tfail i = 0 := by
+  simp only [step, restore, restoreFrom_nodes, upd_same, List.foldl_cons, List.foldl_nil]
+  have : i = 0 ∨ i = 1 ∨ i = 2 ∨ i = 3 ∨ i = 4 ∨ i = 5 ∨ i = 6 ∨ i = 7 := by omega
+  rcases this with h | h | h | h | h | h | h | h <;> subst h <;>
+    simp [Node.restoreIdx, reloadSnapshot, canon, upd]
+
+theorem notifyOne_gid_idx (s : ASet) (n c : Nat) (a : Bool) (o : Oracle) :
+    (notifyOne s n c a o).1.gid = s.gid ∧ (notifyOne s n c a o).1.idx = s.idx := by
+  unfold notifyOne; split
+  · have := notify_static s n a (o.get s.gid s.idx n); exact ⟨this.1, this.2.2.1⟩
+  · exact ⟨rfl, rfl⟩
+
+theorem findSet_notifyAll (sets : List ASet) (n c : Nat) (a : Bool) (o : Oracle) (g i : Nat) :
+    findSet (notifyAll sets n c a o).1 g i = (findSet sets g i).map fun s => (notifyOne s n c a o).1 := by
+  induction sets with
+  | nil => simp [findSet, notifyAll]
+  | cons s ss ih =>
+    unfold findSet at *
+    simp only [notifyAll, List.find?_cons]
+    obtain ⟨h1, h2⟩ := notifyOne_gid_idx s n c a o
+    rw [h1, h2]
+    split
+    · simp
+    · exact ih
+
+theorem notifyOne_static (s : ASet) (n c : Nat) (a : Bool) (o : Oracle) : s.sameStatic (notifyOne s n c a o).1 := by
+  unfold notifyOne; split
+  · exact notify_static s n a _
+  · exact sameStatic_refl s
+
+/-- an alive notification never empties a set; it makes a registered member's set non-empty -/
+theorem notifyOne_alive_nonempty (s : ASet) (n c : Nat) (o : Oracle) (hnd : NodupSet s) :
+    (s.entries ≠ [] → (notifyOne s n c true o).1.entries ≠ []) ∧
+    (s.active = true → s.idx = c → n ∈ s.members → (notifyOne s n c true o).1.entries ≠ []) := by
+  unfold notifyOne
+  by_cases hc : s.active = true ∧ s.idx = c ∧ n ∈ s.members
+  · rw [if_pos hc]
+    obtain ⟨_, hk⟩ := notify_keys s n true (o.get s.gid s.idx n) hnd
+    have hn : n ∈ keys (s.notify n true (o.get s.gid s.idx n)).1.entries := by rw [hk]; simp
+    have hne : (s.notify n true (o.get s.gid s.idx n)).1.entries ≠ [] := by
+      intro h0; rw [h0] at hn; simp [keys] at hn
+    exact ⟨fun _ => hne, fun _ _ _ => hne⟩
+  · rw [if_neg hc]
+    exact ⟨fun h => h, fun h1 h2 h3 => absurd ⟨h1, h2, h3⟩ hc⟩
+
+theorem findSet_mem (sets : List ASet) (g i : Nat) (s : ASet) (h : findSet sets g i = some s) :
+    s ∈ sets ∧ s.gid = g ∧ s.idx = i := by
+  unfold findSet at h
+  have h1 := List.mem_of_find?_eq_some h
+  have h2 := List.find?_some h
+  simp only [Bool.and_eq_true, beq_iff_eq] at h2
+  exact ⟨h1, h2.1, h2.2⟩
+
+/-- the found set of `(g, i)` is non-empty -/
+def DoneAt (w : World) (g i : Nat) : Prop := ∀ s, findSet w.sets g i = some s → s.entries ≠ []
+
+/-- what the floor needs of the found set of `(g, t.idx)`: registered, and the fallback candidate
+(or the first member) belongs to the group -/
+def ReadyAt (w : World) (g : Nat) (fb : Nat → Option Nat) (i : Nat) : Prop :=
+  ∀ s, findSet w.sets g i = some s → s.active = true ∧ s.members ≠ [] ∧ ∀ c, fb i = some c → c ∈ s.members
+
+theorem markAliveFallback_find (w : World) (c : Nat) (t : Typ) (o : Oracle) (g i : Nat) :
+    findSet (markAliveFallback w c t o).1.sets g i =
+      (findSet w.sets g i).map fun s => (notifyOne s c t.idx true o).1 :=
+  findSet_notifyAll w.sets c t.idx true o g i
+
+theorem floorOne_props (w : World) (g : Nat) (fb : Nat → Option Nat) (o : Oracle) (t : Typ)
+    (hnd : SetsAll NodupSet w) :
+    (∀ i, ReadyAt w g fb i → ReadyAt (floorOne w g fb o t).1 g fb i) ∧
+    (∀ i, DoneAt w g i → DoneAt (floorOne w g fb o t).1 g i) ∧
+    (ReadyAt w g fb t.idx → DoneAt (floorOne w g fb o t).1 g t.idx) := by
+  unfold floorOne
+  cases hf : findSet w.sets g t.idx with
+  | none =>
+    simp only
+    refine ⟨fun _ h => h, fun _ h => h, ?_⟩
+    intro _ s hs; rw [hf] at hs; exact absurd hs (by simp)
+  | some s0 =>
+    simp only
+    by_cases hlen : s0.entries.length > 0
+    · rw [if_pos hlen]
+      refine ⟨fun _ h => h, fun _ h => h, ?_⟩
+      intro _ s hs; rw [hf] at hs
+      simp only [Option.some.injEq] at hs; subst hs
+      intro h0; rw [h0] at hlen; simp at hlen
+    · rw [if_neg hlen]
+      cases hcand : floorCandidate fb s0 t.idx with
+      | none =>
+        simp only
+        refine ⟨fun _ h => h, fun _ h => h, ?_⟩
+        intro hr
+        obtain ⟨_, hmem, _⟩ := hr s0 hf
+        exfalso
+        cases hfb : fb t.idx with
+        | some c => simp [floorCandidate, hfb] at hcand
+        | none =>
+          simp only [floorCandidate, hfb] at hcand
+          cases hm : s0.members with
+          | nil => exact hmem hm
+          | cons x xs => rw [hm] at hcand; simp at hcand
+      | some c =>
+        simp only
+        have hmap : ∀ i, findSet (markAliveFallback w c t o).1.sets g i =
+            (findSet w.sets g i).map fun s => (notifyOne s c t.idx true o).1 :=
+          fun i => markAliveFallback_find w c t o g i
+        refine ⟨?_, ?_, ?_⟩
+        · intro i hr s hs
+          rw [hmap] at hs
+          cases hfi : findSet w.sets g i with
+          | none => rw [hfi] at hs; simp at hs
+          | some s1 =>
+            rw [hfi] at hs; simp only [Option.map_some, Option.some.injEq] at hs; subst hs
+            obtain ⟨_, _, _, _, _, hm, _, ha⟩ := notifyOne_static s1 c t.idx true o
+            rw [ha, hm]; exact hr s1 hfi
+        · intro i hd s hs
+          rw [hmap] at hs
+          cases hfi : findSet w.sets g i with
+          | none => rw [hfi] at hs; simp at hs
+          | some s1 =>
+            rw [hfi] at hs; simp only [Option.map_some, Option.some.injEq] at hs; subst hs
+            exact (notifyOne_alive_nonempty s1 c t.idx o (hnd s1 (findSet_mem _ _ _ _ hfi).1)).1 (hd s1 hfi)
+        · intro hr s hs
+          rw [hmap, hf] at hs
+          simp only [Option.map_some, Option.some.injEq] at hs; subst hs
+          obtain ⟨hact, hmem, hfbm⟩ := hr s0 hf
+          have hc : c ∈ s0.members := by
+            cases hfb : fb t.idx with
+            | some c' => simp only [floorCandidate, hfb, Option.some.injEq] at hcand; subst hcand; exact hfbm _ hfb
+            | none =>
+              simp only [floorCandidate, hfb] at hcand
+              exact List.mem_of_mem_head? hcand
+          exact (notifyOne_alive_nonempty s0 c t.idx o (hnd s0 (findSet_mem _ _ _ _ hf).1)).2 hact
+            (findSet_mem _ _ _ _ hf).2.2 hc
+
+theorem floorFrom_props (g : Nat) (fb : Nat → Option Nat) (o : Oracle) (ts : List Typ) : ∀ w : World,
+    SetsAll NodupSet w → (∀ t ∈ ts, ReadyAt w g fb t.idx) →
+    (∀ i, DoneAt w g i → DoneAt (floorFrom ts w g fb o).1 g i) ∧
+    (∀ t ∈ ts, DoneAt (floorFrom ts w g fb o).1 g t.idx) := by
+  induction ts with
+  | nil => intro w _ _; exact ⟨fun _ h => h, fun t ht => by simp at ht⟩
+  | cons t ts ih =>
+    intro w hnd hr
+    simp only [floorFrom]
+    obtain ⟨p1, p2, p3⟩ := floorOne_props w g fb o t hnd
+    have hnd' := floorOne_pres NodupSet o (nodupSet_stable o) w g fb t hnd
+    obtain ⟨q1, q2⟩ := ih _ hnd' (fun t' ht' => p1 _ (hr t' (List.mem_cons_of_mem _ ht')))
+    refine ⟨fun i h => q1 i (p2 i h), ?_⟩
+    intro t' ht'
+    rcases List.mem_cons.mp ht' with rfl | ht'
+    · exact q1 _ (p3 (hr _ List.mem_cons_self))
+    · exact q2 t' ht'
+
+
+/-! ## escalation and misc single-step facts -/
+
+theorem foldl_forced_all_dead (nd : Node) (t : Typ) : (escalationTyps.foldl Node.forced nd).alive t.idx = false := by
+  cases t <;> simp [escalationTyps, Node.forced, upd, Typ.idx]
+
+theorem escalation_all_dead (w : World) (n : Nat) (t : Typ) (tr : Bool) (o : Oracle) (hs : w.suppressed = false)
+    (he : escalates w n t tr = true) (t' : Typ) : ((markUnavail w n t tr o).1.nodes n).alive t'.idx = false := by
+  rw [markUnavail_nodes]
+  simp only [hs, Bool.false_eq_true, if_false, he, if_true, upd_same]
+  exact foldl_forced_all_dead _ t'
+
+theorem threshold_kills (w : World) (n : Nat) (t : Typ) (tr : Bool) (o : Oracle) (hs : w.suppressed = false)
+    (hc : threshold t.isUdp tr ≤ cnt tr (w.nodes n) t.idx + 1) :
+    ((markUnavail w n t tr o).1.nodes n).alive t.idx = false := by
+  rw [markUnavail_nodes]
+  simp only [hs, Bool.false_eq_true, if_false]
+  have hdead : ((w.nodes n).counted t tr).alive t.idx = false := by
+    cases tr <;> simp [Node.counted, cnt] at hc ⊢ <;> omega
+  split
+  · rw [upd_same]; exact foldl_forced_alive_false _ _ _ hdead
+  · rw [upd_same]; exact hdead
+
+theorem below_threshold_keeps (w : World) (n : Nat) (t : Typ) (tr : Bool) (o : Oracle)
+    (hc : cnt tr (w.nodes n) t.idx + 1 < threshold t.isUdp tr) :
+    ((markUnavail w n t tr o).1.nodes n).alive t.idx = (w.nodes n).alive t.idx := by
+  rw [markUnavail_nodes]
+  have hsame : ((w.nodes n).counted t tr).alive t.idx = (w.nodes n).alive t.idx := by
+    cases tr <;> simp [Node.counted, cnt] at hc ⊢ <;> omega
+  have hne : escalates w n t tr = false := by
+    unfold escalates; simp only [hsame]; cases (w.nodes n).alive t.idx <;> simp
+  split
+  · rfl
+  · simp only [hne, Bool.false_eq_true, if_false, upd_same]; exact hsame
+
+theorem markUnavail_suppressed (w : World) (n : Nat) (t : Typ) (tr : Bool) (o : Oracle) (hs : w.suppressed = true) :
+    markUnavail w n t tr o = (w, []) := by
+  unfold markUnavail; simp [hs]
+
+theorem kernelKey_inj (ob ob' i i' : Nat) (hi : 2 ≤ i ∧ i ≤ 7) (hi' : 2 ≤ i' ∧ i' ≤ 7)
+    (h : kernelKey ob i = kernelKey ob' i') : ob = ob' ∧ i = i' := by
+  unfold kernelKey domainOfIdx ipvOfIdx at h
+  have c : i = 2 ∨ i = 3 ∨ i = 4 ∨ i = 5 ∨ i = 6 ∨ i = 7 := by omega
+  have c' : i' = 2 ∨ i' = 3 ∨ i' = 4 ∨ i' = 5 ∨ i' = 6 ∨ i' = 7 := by omega
+  rcases c with h1 | h1 | h1 | h1 | h1 | h1 <;> rcases c' with h2 | h2 | h2 | h2 | h2 | h2 <;> subst h1 <;> subst h2 <;>
+    simp at h <;> omega
+
+theorem kernelKey_range (ob i : Nat) (hi : 2 ≤ i ∧ i ≤ 7) : ob * 6 ≤ kernelKey ob i ∧ kernelKey ob i < ob * 6 + 6 := by
+  unfold kernelKey domainOfIdx ipvOfIdx
+  have c : i = 2 ∨ i = 3 ∨ i = 4 ∨ i = 5 ∨ i = 6 ∨ i = 7 := by omega
+  rcases c with h1 | h1 | h1 | h1 | h1 | h1 <;> subst h1 <;> simp <;> omega
+
+theorem ofTable_tabulate {β : Type} (f : Nat → β) : ofTable (tabulate f) f = f := by
+  funext i
+  unfold ofTable tabulate
+  match i with
+  | 0 | 1 | 2 | 3 | 4 | 5 | 6 | 7 => rfl
+  | n + 8 => simp
+
+theorem node_tab (nd : Node) : nd.tab = nd := by
+  unfold Node.tab; simp only [ofTable_tabulate]
+
+theorem tabNodes_eq (ids : List Nat) (f : Nat → Node) : tabNodesAux (nodeTable ids f) f = f := by
+  funext n
+  unfold tabNodesAux
+  split
+  · rename_i e he
+    have hm := List.mem_of_find?_eq_some he
+    have hp := List.find?_some he
+    simp only [nodeTable, List.mem_map] at hm
+    obtain ⟨k, _, rfl⟩ := hm
+    simp only [beq_iff_eq] at hp
+    simp only [node_tab]; rw [hp]
+  · rfl
+
+theorem world_tab (w : World) (ids : List Nat) : w.tab ids = w := by
+  unfold World.tab; rw [tabNodes_eq]
+
+
+/-! ## the per-address failure table -/
+
+def fkeys (fs : List FailEntry) : List Nat := fs.map (·.1)
+
+theorem failLookup_nil (a : Nat) : failLookup [] a = 0 := rfl
+
+theorem failLookup_cons (e : FailEntry) (fs : List FailEntry) (a : Nat) :
+    failLookup (e :: fs) a = if e.1 = a then e.2.1 else failLookup fs a := by
+  unfold failLookup
+  simp only [List.find?_cons]
+  by_cases h : e.1 = a
+  · simp [h]
+  · have : (e.1 == a) = false := by simpa using h
+    simp [this, h]
+
+theorem failLookup_not_mem (fs : List FailEntry) (a : Nat) (h : a ∉ fkeys fs) : failLookup fs a = 0 := by
+  induction fs with
+  | nil => rfl
+  | cons e fs ih =>
+    rw [failLookup_cons]
+    simp only [fkeys, List.map_cons, List.mem_cons, not_or] at h
+    rw [if_neg (fun h' => h.1 h'.symm)]
+    exact ih h.2
+
+theorem failLookup_filter_le (p : FailEntry → Bool) (fs : List FailEntry) (a : Nat) (hnd : (fkeys fs).Nodup) :
+    failLookup (fs.filter p) a ≤ failLookup fs a := by
+  induction fs with
+  | nil => simp [failLookup_nil]
+  | cons e fs ih =>
+    have hnd' := (List.nodup_cons.mp hnd)
+    simp only [List.filter_cons]
+    by_cases hp : p e = true
+    · simp only [hp, if_true, failLookup_cons]
+      split
+      · exact Nat.le_refl _
+      · exact ih hnd'.2
+    · simp only [hp, Bool.false_eq_true, if_false, failLookup_cons]
+      split
+      · rename_i hea
+        have : a ∉ fkeys (fs.filter p) := by
+          intro hm
+          apply hnd'.1
+          simp only [fkeys, List.mem_map, List.mem_filter] at hm
+          obtain ⟨x, ⟨hx, _⟩, rfl⟩ := hm
+          show e.1 ∈ List.map (fun x => x.1) fs
+          rw [hea]; exact List.mem_map_of_mem (f := fun x : FailEntry => x.1) hx
+        rw [failLookup_not_mem _ _ this]; exact Nat.zero_le _
+      · exact ih hnd'.2
+
+theorem fkeys_filter_nodup (p : FailEntry → Bool) (fs : List FailEntry) (hnd : (fkeys fs).Nodup) :
+    (fkeys (fs.filter p)).Nodup := by
+  unfold fkeys at *
+  exact List.Nodup.sublist (List.Sublist.map _ List.filter_sublist) hnd
+
+theorem failErase_lookup (fs : List FailEntry) (a b : Nat) :
+    failLookup (failErase fs a) b = if b = a then 0 else failLookup fs b := by
+  induction fs with
+  | nil => simp [failErase, failLookup_nil]
+  | cons e fs ih =>
+    unfold failErase at *
+    simp only [List.filter_cons]
+    by_cases he : e.1 = a
+    · simp only [he, bne_self_eq_false, Bool.false_eq_true, if_false, failLookup_cons]
+      rw [ih]
+      by_cases hb : b = a
+      · simp [hb]
+      · simp [hb, Ne.symm hb]
+    · have : (e.1 != a) = true := by simpa using he
+      simp only [this, if_true, failLookup_cons]
+      rw [ih]
+      by_cases hb : b = a
+      · subst hb; simp [he]
+      · simp [hb]
+
+theorem failErase_nodup (fs : List FailEntry) (a : Nat) (hnd : (fkeys fs).Nodup) :
+    (fkeys (failErase fs a)).Nodup ∧ a ∉ fkeys (failErase fs a) := by
+  refine ⟨fkeys_filter_nodup _ fs hnd, ?_⟩
+  intro hm
+  simp only [fkeys, failErase, List.mem_map, List.mem_filter] at hm
+  obtain ⟨x, ⟨_, hx⟩, rfl⟩ := hm
+  simp at hx
+
+def FailWF (w : World) : Prop := (fkeys w.failures).Nodup
+
+theorem cleanup_props (w : World) (hwf : FailWF w) :
+    FailWF (cleanupFailures w) ∧ ∀ a, failLookup (cleanupFailures w).failures a ≤ failLookup w.failures a := by
+  unfold cleanupFailures
+  split
+  · exact ⟨fkeys_filter_nodup _ _ hwf, fun a => failLookup_filter_le _ _ a hwf⟩
+  · exact ⟨hwf, fun a => Nat.le_refl _⟩
+
+theorem recordFailure_props (w : World) (a : Nat) (hwf : FailWF w) :
+    FailWF (recordFailure w a).1 ∧
+    (∀ b, b ≠ a → failLookup (recordFailure w a).1.failures b ≤ failLookup w.failures b) ∧
+    failLookup (recordFailure w a).1.failures a ≤ failLookup w.failures a + 1 ∧
+    ((recordFailure w a).2 = true → maxConsecutiveFailures ≤ failLookup w.failures a + 1) := by
+  obtain ⟨c1, c2⟩ := cleanup_props w hwf
+  unfold recordFailure
+  simp only
+  obtain ⟨e1, e2⟩ := failErase_nodup (cleanupFailures w).failures a c1
+  by_cases hc : failLookup (cleanupFailures w).failures a + 1 ≥ maxConsecutiveFailures
+  · rw [if_pos hc]
+    refine ⟨e1, ?_, ?_, ?_⟩
+    · intro b hb; simp only [failErase_lookup, hb, if_false]; exact c2 b
+    · simp [failErase_lookup]
+    · intro _; have := c2 a; omega
+  · rw [if_neg hc]
+    refine ⟨?_, ?_, ?_, ?_⟩
+    · unfold FailWF fkeys
+      simp only [List.map_cons, List.nodup_cons]
+      exact ⟨e2, e1⟩
+    · intro b hb
+      simp only [failLookup_cons, failErase_lookup, hb, if_false]
+      rw [if_neg (Ne.symm hb)]; exact c2 b
+    · simp only [failLookup_cons, if_true]; have := c2 a; omega
+    · intro h; simp at h
+
+
+theorem markForced_failures (w : World) (n : Nat) (t : Typ) (o : Oracle) :
+    (markForced w n t o).1.failures = w.failures := rfl
+
+theorem escalateFrom_failures (ts : List Typ) (n : Nat) (o : Oracle) : ∀ w : World,
+    (escalateFrom ts w n o).1.failures = w.failures := by
+  induction ts with
+  | nil => intro w; rfl
+  | cons t ts ih => intro w; simp only [escalateFrom]; rw [ih, markForced_failures]
+
+theorem restoreFrom_failures (is : List Nat) (n : Nat) (s : Snapshot) (o : Oracle) : ∀ w : World,
+    (restoreFrom is w n s o).1.failures = w.failures := by
+  induction is with
+  | nil => intro w; rfl
+  | cons i is ih => intro w; simp only [restoreFrom]; rw [ih]; rfl
+
+theorem floorFrom_failures (ts : List Typ) (g : Nat) (fb : Nat → Option Nat) (o : Oracle) : ∀ w : World,
+    (floorFrom ts w g fb o).1.failures = w.failures := by
+  induction ts with
+  | nil => intro w; rfl
+  | cons t ts ih =>
+    intro w; simp only [floorFrom]; rw [ih]
+    unfold floorOne
+    split
+    · rfl
+    · split
+      · rfl
+      · split <;> rfl
+
+/-- the counted failure `(m, t, traffic)` executed in `w` is a death transition of that slot -/
+def diesBy (w : World) (m : Nat) (t : Typ) (tr : Bool) : Bool :=
+  !w.suppressed && (w.nodes m).alive t.idx && !((w.nodes m).counted t tr).alive t.idx
+
+/-- How an event relates to the consecutive-failure count of proxy address `a`: a death transition
+(non-forced) of a node with that address counts, a success of such a node (or the reload reset)
+starts over. -/
+def touchAddr (a : Nat) (w : World) : Event → Touch
+  | .probe m t a1 a2 _ =>
+    match probeOutcome a1 a2 with
+    | .success _ => if (w.nodes m).addr = a then .restart else .none
+    | .failure => if (w.nodes m).addr = a ∧ diesBy w m t false = true then .fail else .none
+    | .nothing => .none
+  | .txn m t ign _ => if ign = false ∧ (w.nodes m).addr = a ∧ diesBy w m t false = true then .fail else .none
+  | .tfail m t ign _ => if ign = false ∧ (w.nodes m).addr = a ∧ diesBy w m t true = true then .fail else .none
+  | .tok m t _ =>
+    if (w.nodes m).addr = a ∧ t.isData = true ∧ (w.nodes m).alive t.idx = false then .restart else .none
+  | .resetGlobal => .restart
+  | _ => .none
+
+def specAddr (a : Nat) : World → List Event → Nat → Nat
+  | _, [], acc => acc
+  | w, e :: es, acc => specAddr a (step w e).1 es ((touchAddr a w e).next acc)
+
+def AddrInv (a : Nat) (w : World) (acc : Nat) : Prop := FailWF w ∧ failLookup w.failures a ≤ acc
+
+theorem markAvail_addr (a : Nat) (ha : a ≠ 0) (w : World) (m : Nat) (t : Typ) (o : Oracle) (acc : Nat)
+    (h : AddrInv a w acc) :
+    AddrInv a (markAvail w m t o).1 (if (w.nodes m).addr = a then 0 else acc) := by
+  unfold markAvail AddrInv FailWF at *
+  simp only
+  by_cases h0 : (w.nodes m).addr ≠ 0
+  · rw [if_pos h0]
+    refine ⟨(failErase_nodup _ _ h.1).1, ?_⟩
+    rw [failErase_lookup]
+    by_cases hm : (w.nodes m).addr = a
+    · simp [hm]
+    · simp only [hm, if_false]; rw [if_neg (Ne.symm hm)]; exact h.2
+  · rw [if_neg h0]
+    have : (w.nodes m).addr ≠ a := by
+      intro hh; apply h0; rw [hh]; exact ha
+    simp only [this, if_false]; exact h
+
+theorem markUnavail_failures (w : World) (m : Nat) (t : Typ) (tr : Bool) (o : Oracle) :
+    (markUnavail w m t tr o).1.failures =
+      if diesBy w m t tr = true ∧ (w.nodes m).addr ≠ 0 then
+        (recordFailure (w.setNode m ((w.nodes m).counted t tr)) (w.nodes m).addr).1.failures
+      else w.failures := by
+  unfold markUnavail diesBy
+  by_cases hs : w.suppressed = true
+  · simp [hs]
+  · have hs' : w.suppressed = false := by simpa using hs
+    simp only [hs', Bool.false_eq_true, if_false, Bool.not_false, Bool.true_and]
+    split
+    · split
+      · exact escalateFrom_failures _ _ _ _
+      · rfl
+    · rfl
+
+theorem markUnavail_addr (a : Nat) (_ha : a ≠ 0) (w : World) (m : Nat) (t : Typ) (tr : Bool) (o : Oracle) (acc : Nat)
+    (h : AddrInv a w acc) :
+    AddrInv a (markUnavail w m t tr o).1 (if (w.nodes m).addr = a ∧ diesBy w m t tr = true then acc + 1 else acc) := by
+  have hwf : FailWF (markUnavail w m t tr o).1 ∧
+      failLookup (markUnavail w m t tr o).1.failures a ≤
+        (if (w.nodes m).addr = a ∧ diesBy w m t tr = true then acc + 1 else acc) := by
+    unfold FailWF
+    rw [markUnavail_failures]
+    by_cases hc : diesBy w m t tr = true ∧ (w.nodes m).addr ≠ 0
+    · rw [if_pos hc]
+      have hwf1 : FailWF (w.setNode m ((w.nodes m).counted t tr)) := h.1
+      obtain ⟨r1, r2, r3, _⟩ := recordFailure_props (w.setNode m ((w.nodes m).counted t tr)) (w.nodes m).addr hwf1
+      refine ⟨r1, ?_⟩
+      by_cases hm : (w.nodes m).addr = a
+      · simp only [hm, hc.1, and_self, if_true]
+        rw [hm] at r3
+        have h2 : failLookup (w.setNode m ((w.nodes m).counted t tr)).failures a ≤ acc := h.2
+        omega
+      · simp only [hm, false_and, if_false]
+        exact Nat.le_trans (r2 a (Ne.symm hm)) h.2
+    · rw [if_neg hc]
+      refine ⟨h.1, ?_⟩
+      split
+      · exact Nat.le_succ_of_le h.2
+      · exact h.2
+  exact hwf
+
+theorem addrInv_step (a : Nat) (ha : a ≠ 0) (w : World) (e : Event) (acc : Nat) (h : AddrInv a w acc) :
+    AddrInv a (step w e).1 ((touchAddr a w e).next acc) := by
+  cases e with
+  | node m x => simp only [step, touchAddr, Touch.next]; split <;> exact h
+  | group g ob p tol ms o => simp only [step, touchAddr, Touch.next]; split <;> exact h
+  | close g => exact h
+  | probe m t a1 a2 o =>
+    simp only [step, touchAddr]
+    cases hp : probeOutcome a1 a2 with
+    | success l =>
+      simp only
+      have := markAvail_addr a ha { w with now := w.now + l } m t o acc h
+      by_cases hm : (w.nodes m).addr = a <;> simpa [hm, Touch.next] using this
+    | nothing => exact h
+    | failure =>
+      simp only
+      have := markUnavail_addr a ha w m t false o acc h
+      by_cases hc : (w.nodes m).addr = a ∧ diesBy w m t false = true
+      · simp only [hc, and_self, if_true, Touch.next] at this ⊢; exact this
+      · simp only [hc, if_false, Touch.next] at this ⊢; exact this
+  | txn m t ign o =>
+    simp only [step, touchAddr]
+    cases ign with
+    | true => simp [Touch.next]; exact h
+    | false =>
+      simp only [Bool.false_eq_true, if_false, true_and]
+      have := markUnavail_addr a ha w m t false o acc h
+      by_cases hc : (w.nodes m).addr = a ∧ diesBy w m t false = true
+      · simp only [hc, and_self, if_true, Touch.next] at this ⊢; exact this
+      · simp only [hc, if_false, Touch.next] at this ⊢; exact this
+  | tfail m t ign o =>
+    simp only [step, touchAddr]
+    cases ign with
+    | true => simp [Touch.next]; exact h
+    | false =>
+      simp only [Bool.false_eq_true, if_false, true_and]
+      have := markUnavail_addr a ha w m t true o acc h
+      by_cases hc : (w.nodes m).addr = a ∧ diesBy w m t true = true
+      · simp only [hc, and_self, if_true, Touch.next] at this ⊢; exact this
+      · simp only [hc, if_false, Touch.next] at this ⊢; exact this
+  | forced m t o => exact h
+  | tok m t o =>
+    simp only [step, touchAddr, trafficOk]
+    by_cases hc : (t.isData && !(w.nodes m).alive t.idx) = true
+    · rw [if_pos hc]
+      have h1 : AddrInv a (w.setNode m ((w.nodes m).clearTraffic t)) acc := h
+      have := markAvail_addr a ha (w.setNode m ((w.nodes m).clearTraffic t)) m t o acc h1
+      simp only [Bool.and_eq_true, Bool.not_eq_true'] at hc
+      simp only [setNode_nodes, upd_same] at this
+      have hadr : ((w.nodes m).clearTraffic t).addr = (w.nodes m).addr := rfl
+      rw [hadr] at this
+      by_cases hm : (w.nodes m).addr = a
+      · simp only [hm, hc.1, hc.2, and_self, if_true, Touch.next] at this ⊢; exact this
+      · simp only [hm, false_and, if_false, Touch.next] at this ⊢; exact this
+    · rw [if_neg hc]
+      have : ¬((w.nodes m).addr = a ∧ t.isData = true ∧ (w.nodes m).alive t.idx = false) := by
+        intro hh; apply hc; simp [hh.2.1, hh.2.2]
+      simp only [this, if_false, Touch.next]; exact h
+  | sbegin => exact h
+  | send => simp only [step, touchAddr, Touch.next]; split; exact h; split <;> exact h
+  | tick d => exact h
+  | resetGlobal =>
+    simp only [step, touchAddr, Touch.next]
+    exact ⟨by simp [FailWF, fkeys], by simp [failLookup_nil]⟩
+  | inherit m k o =>
+    simp only [step, touchAddr, Touch.next, AddrInv, FailWF, restore, restoreFrom_failures]; exact h
+  | restore m s o =>
+    simp only [step, touchAddr, Touch.next, AddrInv, FailWF, restore, restoreFrom_failures]; exact h
+  | floor g fb o =>
+    simp only [step, touchAddr, Touch.next, AddrInv, FailWF, floorFrom_failures]; exact h
+
+theorem addrInv_run (a : Nat) (ha : a ≠ 0) (es : List Event) : ∀ (w : World) (acc : Nat), AddrInv a w acc →
+    AddrInv a (run w es).1 (specAddr a w es acc) := by
+  induction es with
+  | nil => intro w acc h; exact h
+  | cons e es ih => intro w acc h; simp only [run, specAddr]; exact ih _ _ (addrInv_step a ha w e acc h)
+
+theorem specAddr_append (a : Nat) (es : List Event) (e : Event) : ∀ (w : World) (acc : Nat),
+    specAddr a w (es ++ [e]) acc = (touchAddr a (run w es).1 e).next (specAddr a w es acc) := by
+  induction es with
+  | nil => intro w acc; simp [specAddr, run]
+  | cons x xs ih => intro w acc; simp only [List.cons_append, specAddr, run]; exact ih _ _
+
+/-- when a counted failure escalates, it is a death transition of a node with a non-empty address whose
+address count (after this failure) reached `maxConsecutiveFailures` -/
+theorem escalates_spec (w : World) (m : Nat) (t : Typ) (tr : Bool) (hwf : FailWF w) (he : escalates w m t tr = true) :
+    (w.nodes m).alive t.idx = true ∧ ((w.nodes m).counted t tr).alive t.idx = false ∧ (w.nodes m).addr ≠ 0 ∧
+    maxConsecutiveFailures ≤ failLookup w.failures (w.nodes m).addr + 1 := by
+  unfold escalates at he
+  simp only [Bool.and_eq_true, decide_eq_true_eq, Bool.not_eq_true'] at he
+  obtain ⟨⟨⟨h1, h2⟩, h3⟩, h4⟩ := he
+  have hwf1 : FailWF (w.setNode m ((w.nodes m).counted t tr)) := hwf
+  exact ⟨h1, h2, h3, (recordFailure_props _ _ hwf1).2.2.2 h4⟩
+
+
+def NoEsc (outs : List Out) : Prop := ∀ x ∈ outs, ∀ n, x ≠ Out.escalate n
+
+theorem noEsc_append {a b : List Out} (ha : NoEsc a) (hb : NoEsc b) : NoEsc (a ++ b) := by
+  intro x hx; rcases List.mem_append.mp hx with h | h
+  · exact ha x h
+  · exact hb x h
+
+theorem noEsc_nil : NoEsc [] := by intro x hx; simp at hx
+
+theorem notifyAll_noEsc (sets : List ASet) (n c : Nat) (a : Bool) (o : Oracle) : NoEsc (notifyAll sets n c a o).2 := by
+  induction sets with
+  | nil => exact noEsc_nil
+  | cons s ss ih =>
+    simp only [notifyAll]
+    apply noEsc_append _ ih
+    unfold notifyOne; split
+    · intro x hx; simp only [List.mem_map] at hx; obtain ⟨b, _, rfl⟩ := hx; intro _ h; cases h
+    · exact noEsc_nil
+
+theorem noEsc_ite_trans (c : Prop) [Decidable c] (n : Nat) (t : Typ) (a : Bool) :
+    NoEsc (if c then [Out.trans n t a] else []) := by
+  split
+  · intro x hx; simp at hx; subst hx; intro _ h; cases h
+  · exact noEsc_nil
+
+theorem noEsc_ite_trans' (c : Prop) [Decidable c] (n : Nat) (t : Typ) (a : Bool) :
+    NoEsc (if c then [] else [Out.trans n t a]) := by
+  split
+  · exact noEsc_nil
+  · intro x hx; simp at hx; subst hx; intro _ h; cases h
+
+theorem markForced_noEsc (w : World) (n : Nat) (t : Typ) (o : Oracle) : NoEsc (markForced w n t o).2 :=
+  noEsc_append (noEsc_ite_trans _ _ _ _) (notifyAll_noEsc _ _ _ _ _)
+
+theorem escalateFrom_noEsc (ts : List Typ) (n : Nat) (o : Oracle) : ∀ w : World, NoEsc (escalateFrom ts w n o).2 := by
+  induction ts with
+  | nil => intro w; exact noEsc_nil
+  | cons t ts ih => intro w; exact noEsc_append (markForced_noEsc w n t o) (ih _)
+
+theorem markAvail_noEsc (w : World) (n : Nat) (t : Typ) (o : Oracle) : NoEsc (markAvail w n t o).2 :=
+  noEsc_append (noEsc_ite_trans' _ _ _ _) (notifyAll_noEsc _ _ _ _ _)
+
+theorem markAliveFallback_noEsc (w : World) (n : Nat) (t : Typ) (o : Oracle) : NoEsc (markAliveFallback w n t o).2 :=
+  noEsc_append (notifyAll_noEsc _ _ _ _ _) (noEsc_ite_trans' _ _ _ _)
+
+theorem restoreFrom_noEsc (is : List Nat) (n : Nat) (s : Snapshot) (o : Oracle) : ∀ w : World,
+    NoEsc (restoreFrom is w n s o).2 := by
+  induction is with
+  | nil => intro w; exact noEsc_nil
+  | cons i is ih =>
+    intro w
+    exact noEsc_append (noEsc_append (notifyAll_noEsc _ _ _ _ _) (noEsc_ite_trans _ _ _ _)) (ih _)
+
+theorem floorFrom_noEsc (ts : List Typ) (g : Nat) (fb : Nat → Option Nat) (o : Oracle) : ∀ w : World,
+    NoEsc (floorFrom ts w g fb o).2 := by
+  induction ts with
+  | nil => intro w; exact noEsc_nil
+  | cons t ts ih =>
+    intro w
+    simp only [floorFrom]
+    apply noEsc_append _ (ih _)
+    unfold floorOne
+    split
+    · exact noEsc_nil
+    · split
+      · exact noEsc_nil
+      · split
+        · exact noEsc_nil
+        · exact markAliveFallback_noEsc _ _ _ _
+
+theorem newSets_noEsc (w : World) (g ob : Nat) (p : Policy) (tol : Int) (ms : List (Nat × Int)) (o : Oracle)
+    (ts : List Typ) : NoEsc (newSets w g ob p tol ms o ts).2 := by
+  induction ts with
+  | nil => exact noEsc_nil
+  | cons t ts ih =>
+    simp only [newSets]
+    apply noEsc_append _ ih
+    intro x hx
+    simp only [newSet, List.mem_map] at hx
+    obtain ⟨b, _, rfl⟩ := hx
+    intro _ h; cases h
+
+/-- `Out.escalate n` is produced only by a counted, non-suppressed failure on node `n` for which
+`recordProxyFailure` reported the threshold -/
+theorem markUnavail_esc (w : World) (m : Nat) (t : Typ) (tr : Bool) (o : Oracle) (n : Nat)
+    (h : Out.escalate n ∈ (markUnavail w m t tr o).2) : n = m ∧ w.suppressed = false ∧ escalates w m t tr = true := by
+  unfold markUnavail at h
+  by_cases hs : w.suppressed = true
+  · simp [hs] at h
+  · have hs' : w.suppressed = false := by simpa using hs
+    simp only [hs', Bool.false_eq_true, if_false] at h
+    rw [List.append_assoc, List.mem_append] at h
+    rcases h with h | h
+    · exact absurd rfl (noEsc_ite_trans _ _ _ _ _ h n)
+    · rw [List.mem_append] at h
+      rcases h with h | h
+      · split at h
+        · rename_i hc
+          split at h
+          · rename_i hr
+            simp only [List.mem_cons] at h
+            rcases h with h | h
+            · cases h
+              refine ⟨rfl, hs', ?_⟩
+              unfold escalates
+              simp only [Bool.and_eq_true, decide_eq_true_eq]
+              exact ⟨⟨by simpa using hc.1, hc.2⟩, hr⟩
+            · exact absurd rfl (escalateFrom_noEsc _ _ _ _ _ h n)
+          · simp at h
+        · simp at h
+      · exact absurd rfl (notifyAll_noEsc _ _ _ _ _ _ h n)
+
+/-- the events that can escalate -/
+inductive CountedFailureOn (n : Nat) (t : Typ) : Bool → Event → Prop
+  | probe (a1 a2 : Attempt) (o : Oracle) : probeOutcome a1 a2 = .failure → CountedFailureOn n t false (.probe n t a1 a2 o)
+  | txn (o : Oracle) : CountedFailureOn n t false (.txn n t false o)
+  | tfail (o : Oracle) : CountedFailureOn n t true (.tfail n t false o)
+
+theorem step_esc (w : World) (e : Event) (n : Nat) (h : Out.escalate n ∈ (step w e).2) :
+    ∃ t tr, CountedFailureOn n t tr e ∧ w.suppressed = false ∧ escalates w n t tr = true := by
+  cases e with
+  | node m a => simp only [step] at h; split at h <;> simp at h
+  | group g ob p tol ms o =>
+    simp only [step] at h
+    split at h
+    · simp at h
+    · simp only [newGroup, List.mem_append, List.mem_map] at h
+      rcases h with h | ⟨t, _, h⟩
+      · split at h
+        · exact absurd rfl (newSets_noEsc _ _ _ _ _ _ _ _ _ h n)
+        · simp at h
+      · cases h
+  | close g => simp [step] at h
+  | probe m t a1 a2 o =>
+    simp only [step] at h
+    cases hp : probeOutcome a1 a2 with
+    | success l => rw [hp] at h; exact absurd rfl (markAvail_noEsc _ _ _ _ _ h n)
+    | nothing => rw [hp] at h; simp at h
+    | failure =>
+      rw [hp] at h
+      obtain ⟨h1, h2, h3⟩ := markUnavail_esc w m t false o n h
+      subst h1
+      exact ⟨t, false, CountedFailureOn.probe a1 a2 o hp, h2, h3⟩
+  | txn m t ign o =>
+    simp only [step] at h
+    cases ign with
+    | true => simp at h
+    | false =>
+      simp only [Bool.false_eq_true, if_false] at h
+      obtain ⟨h1, h2, h3⟩ := markUnavail_esc w m t false o n h
+      subst h1
+      exact ⟨t, false, CountedFailureOn.txn o, h2, h3⟩
+  | tfail m t ign o =>
+    simp only [step] at h
+    cases ign with
+    | true => simp at h
+    | false =>
+      simp only [Bool.false_eq_true, if_false] at h
+      obtain ⟨h1, h2, h3⟩ := markUnavail_esc w m t true o n h
+      subst h1
+      exact ⟨t, true, CountedFailureOn.tfail o, h2, h3⟩
+  | forced m t o => exact absurd rfl (markForced_noEsc _ _ _ _ _ h n)
+  | tok m t o =>
+    simp only [step, trafficOk] at h
+    split at h
+    · exact absurd rfl (markAvail_noEsc _ _ _ _ _ h n)
+    · simp at h
+  | sbegin => simp [step] at h
+  | send => simp only [step] at h; split at h; simp at h; split at h <;> simp at h
+  | tick d => simp [step] at h
+  | resetGlobal => simp [step] at h
+  | inherit m k o => exact absurd rfl (restoreFrom_noEsc _ _ _ _ _ _ h n)
+  | restore m s o => exact absurd rfl (restoreFrom_noEsc _ _ _ _ _ _ h n)
+  | floor g fb o => exact absurd rfl (floorFrom_noEsc _ _ _ _ _ _ h n)
+
+theorem touchAddr_of_counted (w : World) (n : Nat) (t : Typ) (tr : Bool) (e : Event) (hc : CountedFailureOn n t tr e)
+    (hd : diesBy w n t tr = true) : touchAddr (w.nodes n).addr w e = .fail := by
+  cases hc with
+  | probe a1 a2 o hp => simp [touchAddr, hp, hd]
+  | txn o => simp [touchAddr, hd]
+  | tfail o => simp [touchAddr, hd]
 
 
 end DaeVerif.C16
